@@ -51,6 +51,10 @@
 (*                 SubnetLimiter.Allow at or after FullAt + GracePeriod    *)
 (*                 ("GracePeriod is the time to wait to remove a full      *)
 (*                 capacity bucket").                                      *)
+(*  R8 replenish   Time alone only ever refills: a tick raises no deficit and  *)
+(*                 postpones no Expiry, and lowers at least one while anything *)
+(*                 is not full (so every bucket is full again after            *)
+(*                 Burst/RPS, and a refused address is served again).          *)
 (*  R7 zero        RPS == 0 in GlobalLimit / a NetworkPrefixLimit means    *)
 (*                 unlimited ("Use 0 for no rate limiting"), whatever      *)
 (*                 Burst is; no configured subnet limits = unlimited.      *)
@@ -242,6 +246,17 @@ Charged(S, o, T) ==
      ELSE /\ \A b \in ApplicableSub(o.a) : T.ideal[b] = S.ideal[b] + U
           /\ T.g = S.g + (IF Glob.rate = 0 THEN 0 ELSE U)
 ChargeOnce == [][Charged(s, op', s')]_vars
+
+\* R8
+TickRefills(S, o, T) ==
+  o.name = "Tick" =>
+     /\ T.g <= S.g /\ \A i \in 1..Len(NP) : T.np[i] <= S.np[i]
+     /\ \A b \in AllBIds : T.bk[b].pres = S.bk[b].pres /\ T.bk[b].def <= S.bk[b].def /\ T.bk[b].ttl <= S.bk[b].ttl /\ T.ideal[b] <= S.ideal[b]
+     /\ T # S
+Replenish == [][TickRefills(s, op', s')]_vars
+\* ... and time alone makes everything full: when no tick is enabled any more, every bucket holds its burst
+Rested == (TickS(s) = s) => /\ (Glob.rate # 0 => s.g = 0) /\ \A i \in 1..Len(NP) : NP[i].rate # 0 => s.np[i] = 0
+                           /\ \A b \in AllBIds : s.ideal[b] = 0 /\ (s.bk[b].pres => s.bk[b].ttl = 0)
 
 (* vacuity guards: action properties, each expected to be VIOLATED *)
 IsRef(o, by, at) == o.name = "Allow" /\ ~o.ok /\ o.by = by /\ (at = 0 \/ o.at = at)
